@@ -131,6 +131,25 @@ type observation struct {
 
 // key identifies what the property calls "the result": two observations with the same
 // key are the same URL (the order of query pairs of different names is not part of it).
+// observations travel between processes as JSON; every field goes through qs so that
+// bytes that are not valid UTF-8 (a decoded path can hold them) survive the trip.
+type observationWire struct {
+	Panic, Err, Scheme, Host, Path, Escaped, RawQ, Extra, Full qs
+}
+
+func (o observation) MarshalJSON() ([]byte, error) {
+	return json.Marshal(observationWire{qs(o.Panic), qs(o.Err), qs(o.Scheme), qs(o.Host), qs(o.Path), qs(o.Escaped), qs(o.RawQ), qs(o.Extra), qs(o.Full)})
+}
+
+func (o *observation) UnmarshalJSON(b []byte) error {
+	var w observationWire
+	if err := json.Unmarshal(b, &w); err != nil {
+		return err
+	}
+	*o = observation{string(w.Panic), string(w.Err), string(w.Scheme), string(w.Host), string(w.Path), string(w.Escaped), string(w.RawQ), string(w.Extra), string(w.Full)}
+	return nil
+}
+
 func (o observation) key() string {
 	cq := o.RawQ
 	if vals, err := url.ParseQuery(o.RawQ); err == nil {
@@ -186,7 +205,16 @@ func execute(rc rtCache, c *Case, order []int) (o observation) {
 			o = observation{Panic: fmt.Sprint(e)}
 		}
 	}()
-	rt := rc.get(c.Host, c.Base.Render(), c.Rt)
+	return executeOn(rc.get(c.Host, c.Base.Render(), c.Rt), c, order)
+}
+
+// executeOn builds the request of the case on the given Runtime.
+func executeOn(rt *client.Runtime, c *Case, order []int) (o observation) {
+	defer func() {
+		if e := recover(); e != nil {
+			o = observation{Panic: fmt.Sprint(e)}
+		}
+	}()
 	op := &runtime.ClientOperation{
 		ID:          "c10",
 		Method:      "GET",
